@@ -551,6 +551,15 @@ func init() {
 	gens["C17"] = func(tier string, r *rng, emit func(string)) {
 		genXKinds("C17", emit)
 		genXKinds("C17fn", emit)
+		// the typed setters and copies (array_getset.go, memsetIter/zeroIter/copy per element type):
+		// C04's whole-view writes for every element type
+		nset := 0
+		gens["C04"](tier, r, func(c string) {
+			if nset < 2500 && strings.HasPrefix(c, "prog ") && (strings.Contains(c, "memset:") || strings.Contains(c, "zero:") || strings.Contains(c, ";copy:") || strings.Contains(c, "setat:")) {
+				nset++
+				emit(c)
+			}
+		})
 		maskPredSweep(emit)
 		for _, dt := range []string{"i", "i8", "i16", "i32", "i64", "u", "u8", "u16", "u32", "u64", "f32", "f64", "c64", "c128"} {
 			for _, op := range valopAll {
